@@ -7,7 +7,7 @@ ap = argparse.ArgumentParser()
 ap.add_argument('seed'); ap.add_argument('prop'); ap.add_argument('out')
 ap.add_argument('--demo', required=True); ap.add_argument('--tests', required=True); ap.add_argument('--needs', default='')
 a = ap.parse_args()
-WT = '/tmp/wt_confirm'
+WT = os.environ.get('VP_CONFIRM_WT', '/tmp/wt_confirm')
 VERIF = os.path.dirname(os.path.dirname(os.path.abspath(__file__)))
 env = dict(os.environ, CARGO_TARGET_DIR=WT + '/target', CARGO_NET_OFFLINE='true')
 
